@@ -369,8 +369,72 @@ func (res *CheckResult) checkExpression(lit parser.ValueExpr, requiredType strin
 	case *parser.StringLiteral:
 		res.assertHasType(lit, requiredType, TypeString)
 	case *parser.BinaryInfix:
-		res.checkExpression(lit.Left, TypeAny)
-		res.checkExpression(lit.Right, TypeAny)
+		res.checkInfixExpression(lit, requiredType)
+	}
+}
+
+// The infix operators are defined on numbers and on monetaries: both operands
+// must have the same type, which is also the type of the result.
+func (res *CheckResult) checkInfixExpression(infix *parser.BinaryInfix, requiredType string) {
+	operandsType := requiredType
+	if requiredType == TypeAny {
+		// the left operand decides ("" when its type is not known)
+		operandsType = res.typeOfExpression(infix.Left)
+	}
+
+	switch operandsType {
+	case TypeNumber, TypeMonetary:
+		res.checkExpression(infix.Left, operandsType)
+		res.checkExpression(infix.Right, operandsType)
+		return
+
+	case "":
+		// nothing is known about the operands (e.g. unbound variable)
+
+	default:
+		if requiredType != TypeAny {
+			// an infix expression can only be a number or a monetary
+			res.assertHasType(infix, requiredType, TypeNumber+"|"+TypeMonetary)
+		} else if infix.Left != nil {
+			res.assertHasType(infix.Left, TypeNumber+"|"+TypeMonetary, operandsType)
+		}
+	}
+
+	res.checkExpression(infix.Left, TypeAny)
+	res.checkExpression(infix.Right, TypeAny)
+}
+
+// The static type of an expression, or "" when it cannot be determined
+func (res *CheckResult) typeOfExpression(expr parser.ValueExpr) string {
+	switch expr := expr.(type) {
+	case *parser.Variable:
+		if expr == nil {
+			return ""
+		}
+		decl, ok := res.declaredVars[expr.Name]
+		if !ok || decl.Type == nil || !isTypeAllowed(decl.Type.Name) {
+			return ""
+		}
+		return decl.Type.Name
+	case *parser.MonetaryLiteral:
+		return TypeMonetary
+	case *parser.AccountLiteral:
+		return TypeAccount
+	case *parser.RatioLiteral:
+		return TypePortion
+	case *parser.AssetLiteral:
+		return TypeAsset
+	case *parser.NumberLiteral:
+		return TypeNumber
+	case *parser.StringLiteral:
+		return TypeString
+	case *parser.BinaryInfix:
+		if expr == nil {
+			return ""
+		}
+		return res.typeOfExpression(expr.Left)
+	default:
+		return ""
 	}
 }
 
